@@ -50,8 +50,11 @@ def validate(ctx, events, cfg, name):
     return re.search(r'<<"VERDICT", ', res.output) is not None, int(hw.group(1)), res.distinct
 
 
-def model_check(ctx, thorough):
-    ctx.tlc_must_pass("ConnMC", "ConnMC_thorough.cfg" if thorough else "ConnMC_quick.cfg", timeout=3000, name="conn-mc")
+def model_check(ctx, thorough, own):
+    # the full quick configuration is explored by C17 (which owns the liveness properties); C01's quick tier uses two callers
+    # with one message each
+    cfg = "ConnMC_thorough.cfg" if thorough else ("ConnMC_quick.cfg" if own == "C17" else "ConnMC_light.cfg")
+    ctx.tlc_must_pass("ConnMC", cfg, timeout=3000, name="conn-mc")
     sens = {}
     for cfg, want in (("ConnMC_hazard_ignoresclose.cfg", "Quiesces"), ("ConnMC_hazard_failsfull.cfg", "FailsOnlyWhenClosed")):
         r = ctx.tlc("ConnMC", cfg, timeout=900, count=False, name="conn-sensitivity")
@@ -63,7 +66,7 @@ def model_check(ctx, thorough):
 
 def run(ctx, own):
     thorough = ctx.tier == "thorough"
-    model_check(ctx, thorough)
+    model_check(ctx, thorough, own)
     out, stats = ctx.path("conn.ndjson"), ctx.path("conn-stats.json")
     ctx.drv(["-rounds", "64" if thorough else "16", "-out", out, "-stats", stats], cmd_name="vdrv-conn", timeout=1200)
     st = json.load(open(stats))
